@@ -98,3 +98,24 @@ Print Assumptions C10_hunt6_no_start_unaffected.
 Example C10_hunt6_no_start_nonvacuous : known_C10_hunt6 [HStop [2;0;0;0;0;1]; HStop [2;0;0;0;0;2]] = false.
 Proof. exact hunt_partial_nonvacuous. Qed.
 Print Assumptions C10_hunt6_no_start_nonvacuous.
+
+(* ---------------------------------------------------------------- *)
+(* Hunt list of the ARP spoofer (handlers/arp_spoofer/spoof.go): map keyed by a copy of the MAC, value and
+   spoof loop hold the Addr; StartHunt copies addr.MAC since /repo c1ee67c ([hunt4_copies] = true).
+   Transcript: first announcement of a new loop, what every loop sends at each 6 s tick (announcement to the
+   hunted MAC, or the restoring request when its key is gone), spoofed replies to ARP requests of hunted MACs. *)
+Theorem C10_hunt4_noninterference : forall rip scr p,
+  h4transcript hunt4_copies rip (h4shared scr 0 p) = h4transcript hunt4_copies rip (h4fresh 0 p).
+Proof. exact hunt4_noninterference_copy. Qed.
+Print Assumptions C10_hunt4_noninterference.
+
+(* the unrepaired code: once the buffer is reused the loop no longer finds its own key and gives up *)
+Theorem C10_hunt4_without_copy_refuted :
+  exists scr p, h4transcript false [192;168;0;11] (h4shared scr 0 p) <> h4transcript false [192;168;0;11] (h4fresh 0 p).
+Proof. exact hunt4_refuted_ref. Qed.
+Print Assumptions C10_hunt4_without_copy_refuted.
+
+Example C10_hunt4_example :
+  h4transcript true [192;168;0;11] (h4shared ex_hunt_scr 0 ex_hunt4_hist) = [[item_announce [2;0;0;0;0;1]]; [item_announce [2;0;0;0;0;1]]].
+Proof. exact ex_hunt4_runs. Qed.
+Print Assumptions C10_hunt4_example.
